@@ -756,6 +756,8 @@ class Models:
                 if name in ("__next__", "__iter__"):
                     return BuiltinMethod(obj, name)
                 pyraise(AttributeError, name)
+            if isinstance(obj, SSet) and name == "__deepcopy__":
+                return BuiltinMethod(obj, name)
             if not hasattr(mt, name):
                 pyraise(AttributeError, f"'{mt.__name__}' object has no attribute '{name}'")
             if isinstance(obj, slice) and name in ("start", "stop", "step"):
